@@ -1,3 +1,3 @@
-import DosModel.Model.Framing
+import DosModel.Model.FramingPipe
 import DosModel.Gen.P2PConsts
-def main : IO Unit := Dos.lineLoop (Dos.Framing.step Dos.Gen.msgSizeLimit)
+def main : IO Unit := Dos.lineLoop (Dos.Framing.stepX Dos.Gen.msgSizeLimit)
